@@ -453,3 +453,233 @@ Qed.
 
 Lemma Inv_final : forall h, Inv (final h).
 Proof. intro h. unfold final. apply Inv_run, Inv_init. Qed.
+
+(* ---- who is invoked -------------------------------------------------------------------------------------- *)
+Definition acc (st : dstate) (m : omsg) (src : Z * Z) (port : Z) (id : nat) : bool :=
+  match nth_error (resps st) id with Some r => accepts r m src port | None => false end.
+
+Lemma acc_disable : forall st j m src port id, acc (disable st j) m src port id = acc st m src port id.
+Proof.
+  intros st j m src port id. unfold disable.
+  destruct (nth_error (resps st) j) as [r|] eqn:Hn; [|reflexivity].
+  destruct (r_enabled r); [|reflexivity].
+  assert (Hl : (j < length (resps st))%nat) by (apply nth_error_Some; congruence).
+  unfold acc. simpl. destruct (Nat.eq_dec id j) as [-> | Hne].
+  - rewrite (nth_set_resp_same st j r _ Hn), Hn. reflexivity.
+  - rewrite nth_set_resp_other by assumption. reflexivity.
+Qed.
+Lemma enabled_disable_mono : forall st j id, enabled (disable st j) id = true -> enabled st id = true.
+Proof.
+  intros st j id. unfold disable.
+  destruct (nth_error (resps st) j) as [r|] eqn:Hn; [|auto].
+  destruct (r_enabled r) eqn:He; [|auto].
+  assert (Hl : (j < length (resps st))%nat) by (apply nth_error_Some; congruence).
+  unfold enabled. simpl. destruct (Nat.eq_dec id j) as [-> | Hne].
+  - rewrite (nth_set_resp_same st j r _ Hn), Hn. simpl. discriminate.
+  - rewrite nth_set_resp_other by assumption. auto.
+Qed.
+Lemma enabled_disable_self : forall st id, enabled (disable st id) id = false.
+Proof.
+  intros st id. unfold disable.
+  destruct (nth_error (resps st) id) as [r|] eqn:Hn; [|unfold enabled; rewrite Hn; reflexivity].
+  destruct (r_enabled r) eqn:He; [|unfold enabled; rewrite Hn; assumption].
+  unfold enabled. simpl. rewrite (nth_set_resp_same st id r _ Hn). reflexivity.
+Qed.
+
+Lemma acc_run_func : forall f st j m src port id, acc (fst (run_func st j f)) m src port id = acc st m src port id.
+Proof.
+  induction f as [tag | g IH]; intros; simpl; [reflexivity|]. rewrite IH. apply acc_disable.
+Qed.
+Lemma enabled_run_func_mono : forall f st j id, enabled (fst (run_func st j f)) id = true -> enabled st id = true.
+Proof.
+  induction f as [tag | g IH]; intros st j id H; simpl in *; [assumption|].
+  apply IH in H. apply enabled_disable_mono in H. assumption.
+Qed.
+
+Lemma call_wrapped_spec : forall st w m t src port,
+  (acc st m src port (w_id w) = true /\
+   call_wrapped st w m t src port =
+     (fst (run_func st (w_id w) (w_func w)),
+      [{| i_id := w_id w; i_tag := snd (run_func st (w_id w) (w_func w)); i_msg := m; i_time := t; i_src := src; i_port := port |}]))
+  \/ (acc st m src port (w_id w) = false /\ call_wrapped st w m t src port = (st, [])).
+Proof.
+  intros st w m t src port. unfold call_wrapped, acc.
+  destruct (nth_error (resps st) (w_id w)) as [r|]; [|right; split; reflexivity].
+  destruct (accepts r m src port); [left | right; split; reflexivity].
+  split; [reflexivity|]. destruct (run_func st (w_id w) (w_func w)). reflexivity.
+Qed.
+
+Lemma call_all_spec : forall l st m t src port,
+  map i_id (snd (call_all st l m t src port)) = filter (acc st m src port) (map w_id l)
+  /\ (forall id, acc (fst (call_all st l m t src port)) m src port id = acc st m src port id)
+  /\ (forall id, enabled (fst (call_all st l m t src port)) id = true -> enabled st id = true)
+  /\ (forall i, In i (snd (call_all st l m t src port)) -> i_msg i = m /\ i_time i = t /\ i_src i = src /\ i_port i = port).
+Proof.
+  induction l as [| w l IH]; intros st m t src port; simpl.
+  - repeat split; auto; contradiction.
+  - destruct (call_wrapped_spec st w m t src port) as [[Ha Hc] | [Ha Hc]]; rewrite Hc, Ha.
+    + set (st1 := fst (run_func st (w_id w) (w_func w))).
+      destruct (IH st1 m t src port) as (H1 & H2 & H3 & H4).
+      destruct (call_all st1 l m t src port) as [st2 o2]. simpl in *.
+      repeat split.
+      * f_equal. rewrite H1. apply filter_ext. intro id. apply acc_run_func.
+      * intro id. rewrite H2. apply acc_run_func.
+      * intros id He. apply H3 in He. eapply enabled_run_func_mono. exact He.
+      * destruct H as [<- | Hi]; [reflexivity | apply (H4 _ Hi)].
+      * destruct H as [<- | Hi]; [reflexivity | apply (H4 _ Hi)].
+      * destruct H as [<- | Hi]; [reflexivity | apply (H4 _ Hi)].
+      * destruct H as [<- | Hi]; [reflexivity | apply (H4 _ Hi)].
+    + destruct (IH st m t src port) as (H1 & H2 & H3 & H4).
+      destruct (call_all st l m t src port) as [st2 o2]. simpl in *.
+      repeat split; auto; apply (H4 _ H).
+Qed.
+
+Lemma filter_filter_and : forall (A : Type) (f g : A -> bool) l, filter f (filter g l) = filter (fun x => g x && f x) l.
+Proof.
+  induction l as [| x l IH]; simpl; [reflexivity|].
+  destruct (g x); simpl; [destruct (f x); rewrite IH; reflexivity | assumption].
+Qed.
+
+(* the responders that must fire for a message, on one dispatcher (kind) and one table key *)
+Definition fires (st : dstate) (kind : bool) (key : list Z) (m : omsg) (src : Z * Z) (port : Z) (id : nat) : bool :=
+  match nth_error (resps st) id with
+  | Some r => r_enabled r && Bool.eqb (r_matching r) kind && bytes_eqb key (r_path r) && accepts r m src port
+  | None => false
+  end.
+
+Lemma fires_filter : forall st kind key m src port, Inv st ->
+  filter (fun id => has_key st kind key id && acc st m src port id) (cmdp st) = filter (fires st kind key m src port) (cmdp st).
+Proof.
+  intros st kind key m src port HI. apply filter_ext_in_l. intros id Hi.
+  apply (inv_enabled st HI) in Hi. unfold enabled, has_key, acc, fires in *.
+  destruct (nth_error (resps st) id) as [r|]; [|reflexivity]. rewrite Hi. reflexivity.
+Qed.
+
+Lemma exact_ids : forall st m t src port, Inv st ->
+  map i_id (snd (dispatch_exact_d st m t src port)) = filter (fires st false (m_addr m) m src port) (cmdp st).
+Proof.
+  intros st m t src port HI. rewrite <- fires_filter by assumption. rewrite <- filter_filter_and.
+  pose proof (inv_tbl st HI false (m_addr m)) as Ht. unfold tbl, ids_at in Ht. rewrite <- Ht.
+  unfold dispatch_exact_d. destruct (tbl_get (act_exact st) (m_addr m)) as [l|]; [|reflexivity].
+  apply call_all_spec.
+Qed.
+
+Lemma tbl_get_in : forall t k l, NoDup (keys t) -> In (k, l) t -> tbl_get t k = Some l.
+Proof.
+  induction t as [| [k' l'] t IH]; intros k l Hnd Hi; [contradiction|].
+  inversion Hnd as [| ? ? Hnin Hnd']; subst. simpl. destruct Hi as [Hi | Hi].
+  - inversion Hi; subst. rewrite bytes_eqb_refl. reflexivity.
+  - destruct (bytes_eqb k k') eqn:E.
+    + apply bytes_eqb_eq in E. subst. exfalso. apply Hnin. change k' with (fst (k', l)). apply in_map. assumption.
+    + apply IH; assumption.
+Qed.
+
+Definition matches (m : omsg) (k : list Z) : bool := mres_eqb (osc_rematch (m_addr m) k) MTrue.
+
+Lemma rematch_error_uniform : forall p k k', osc_rematch p k = MReError \/ osc_rematch p k = MOutOfFuel -> osc_rematch p k' <> MTrue.
+Proof.
+  intros p k k' H. unfold osc_rematch, osc_rematch_gen in *.
+  destruct (re_parse (rewrite Repaired p)); [|discriminate | discriminate].
+  destruct (rmatch a k); destruct H; discriminate.
+Qed.
+
+Lemma dispatch_keys_spec : forall ks st m t src port,
+  map i_id (snd (dispatch_keys st ks m t src port))
+    = flat_map (fun kl => if matches m (fst kl) then filter (acc st m src port) (map w_id (snd kl)) else []) ks
+  /\ (forall id, enabled (fst (dispatch_keys st ks m t src port)) id = true -> enabled st id = true)
+  /\ (forall i, In i (snd (dispatch_keys st ks m t src port)) -> i_msg i = m /\ i_time i = t /\ i_src i = src /\ i_port i = port).
+Proof.
+  induction ks as [| [k l] ks IH]; intros st m t src port; simpl.
+  - repeat split; auto; contradiction.
+  - unfold matches at 1. simpl. destruct (osc_rematch (m_addr m) k) eqn:E; simpl.
+    + destruct (call_all_spec l st m t src port) as (H1 & H2 & H3 & H4).
+      destruct (call_all st l m t src port) as [st1 o1]. simpl in *.
+      destruct (IH st1 m t src port) as (G1 & G2 & G3).
+      destruct (dispatch_keys st1 ks m t src port) as [st2 o2]. simpl in *.
+      repeat split.
+      * rewrite map_app, H1, G1. f_equal. apply flat_map_ext. intros [k' l']. simpl.
+        destruct (matches m k'); [apply filter_ext; assumption | reflexivity].
+      * intros id He. apply H3, G2. assumption.
+      * apply in_app_or in H as [Hi | Hi]; [apply (H4 _ Hi) | apply (G3 _ Hi)].
+      * apply in_app_or in H as [Hi | Hi]; [apply (H4 _ Hi) | apply (G3 _ Hi)].
+      * apply in_app_or in H as [Hi | Hi]; [apply (H4 _ Hi) | apply (G3 _ Hi)].
+      * apply in_app_or in H as [Hi | Hi]; [apply (H4 _ Hi) | apply (G3 _ Hi)].
+    + apply IH.
+    + repeat split; auto; try contradiction.
+      symmetry. clear IH. induction ks as [| [k' l'] ks IHk]; simpl; [reflexivity|].
+      unfold matches at 1. simpl.
+      destruct (osc_rematch (m_addr m) k') eqn:E'; simpl; try assumption.
+      exfalso. apply (rematch_error_uniform (m_addr m) k k'); [left; assumption | assumption].
+    + repeat split; auto; try contradiction.
+      symmetry. clear IH. induction ks as [| [k' l'] ks IHk]; simpl; [reflexivity|].
+      unfold matches at 1. simpl.
+      destruct (osc_rematch (m_addr m) k') eqn:E'; simpl; try assumption.
+      exfalso. apply (rematch_error_uniform (m_addr m) k k'); [right; assumption | assumption].
+Qed.
+
+Lemma match_ids : forall st m t src port, Inv st ->
+  map i_id (snd (dispatch_match_d st m t src port))
+    = flat_map (fun k => if matches m k then filter (fires st true k m src port) (cmdp st) else []) (keys (act_match st)).
+Proof.
+  intros st m t src port HI. unfold dispatch_match_d.
+  destruct (dispatch_keys_spec (act_match st) st m t src port) as (H1 & _). rewrite H1.
+  unfold keys. rewrite flat_map_concat_map, (flat_map_concat_map _ (map fst (act_match st))), map_map. f_equal.
+  apply map_ext_in. intros [k l] Hi. simpl. destruct (matches m k); [|reflexivity].
+  rewrite <- fires_filter by assumption. rewrite <- filter_filter_and.
+  pose proof (inv_tbl st HI true k) as Ht. unfold tbl, ids_at in Ht.
+  rewrite (tbl_get_in (act_match st) k l (inv_keys st HI true) Hi) in Ht. rewrite Ht. reflexivity.
+Qed.
+
+(* nothing that is not enabled is ever invoked; an incoming message enables nothing *)
+Lemma incoming_spec : forall st m t src port, Inv st ->
+  (forall i, In i (snd (incoming st m t src port)) ->
+      enabled st (i_id i) = true /\ i_msg i = m /\ i_time i = t /\ i_src i = src /\ i_port i = port)
+  /\ (forall id, enabled (fst (incoming st m t src port)) id = true -> enabled st id = true).
+Proof.
+  intros st m t src port HI. unfold incoming.
+  pose proof (exact_ids st m t src port HI) as Hex.
+  assert (Hinv1 : Inv (fst (dispatch_exact_d st m t src port))).
+  { unfold dispatch_exact_d. destruct (tbl_get (act_exact st) (m_addr m)); [apply Inv_call_all|]; assumption. }
+  assert (Hmono1 : forall id, enabled (fst (dispatch_exact_d st m t src port)) id = true -> enabled st id = true).
+  { unfold dispatch_exact_d. destruct (tbl_get (act_exact st) (m_addr m)) as [l|]; [apply call_all_spec | auto]. }
+  assert (Hf1 : forall i, In i (snd (dispatch_exact_d st m t src port)) -> i_msg i = m /\ i_time i = t /\ i_src i = src /\ i_port i = port).
+  { unfold dispatch_exact_d. destruct (tbl_get (act_exact st) (m_addr m)) as [l|]; [apply call_all_spec | simpl; contradiction]. }
+  destruct (dispatch_exact_d st m t src port) as [st1 o1]. simpl in *.
+  pose proof (match_ids st1 m t src port Hinv1) as Hm. unfold dispatch_match_d in *.
+  destruct (dispatch_keys_spec (act_match st1) st1 m t src port) as (_ & Hmono2 & Hf2).
+  destruct (dispatch_keys st1 (act_match st1) m t src port) as [st2 o2]. simpl in *.
+  split.
+  - intros i Hi. apply in_app_or in Hi as [Hi | Hi].
+    + split; [|apply Hf1; assumption].
+      assert (Hin : In (i_id i) (map i_id o1)) by (apply in_map; assumption).
+      rewrite Hex in Hin. apply filter_In in Hin as [Hin _]. apply (inv_enabled st HI). assumption.
+    + split; [|apply Hf2; assumption].
+      assert (Hin : In (i_id i) (map i_id o2)) by (apply in_map; assumption).
+      rewrite Hm in Hin. apply in_flat_map in Hin as (k & _ & Hin).
+      destruct (matches m k); [|contradiction]. apply filter_In in Hin as [Hin _].
+      apply Hmono1. apply (inv_enabled st1 Hinv1). assumption.
+  - intros id He. apply Hmono1, Hmono2. assumption.
+Qed.
+
+Lemma oneshot_disables : forall st w m t src port g, w_func w = FOneShot g ->
+  snd (call_wrapped st w m t src port) <> [] ->
+  enabled (fst (call_wrapped st w m t src port)) (w_id w) = false.
+Proof.
+  intros st w m t src port g Hw Hne.
+  destruct (call_wrapped_spec st w m t src port) as [[Ha Hc] | [Ha Hc]]; rewrite Hc in *; simpl in *; [|contradiction].
+  rewrite Hw. simpl. destruct (enabled (fst (run_func (free st (w_id w)) (w_id w) g)) (w_id w)) eqn:E; [|reflexivity].
+  apply enabled_run_func_mono in E. unfold free in E. rewrite enabled_disable_self in E. discriminate.
+Qed.
+
+(* ---- the receive path ------------------------------------------------------------------------------------------ *)
+Lemma malformed_nothing : forall st d src port, (forall ms, parse_packet d <> POk ms) ->
+  handle_request st d src port = (st, []).
+Proof.
+  intros st d src port H. unfold handle_request. destruct (parse_packet d) as [ms | |]; [exfalso; apply (H ms); reflexivity | reflexivity | reflexivity].
+Qed.
+
+Lemma parse_ok_or_error : forall d, (exists ms, parse_packet d = POk ms) \/ parse_packet d = PError.
+Proof.
+  intro d. pose proof (parse_packet_total d) as H.
+  destruct (parse_packet d) as [ms | |]; [left; exists ms; reflexivity | right; reflexivity | contradiction].
+Qed.
